@@ -102,7 +102,7 @@ mod imp {
             let prog = random_program(&mut rng, &cfg);
             let shape = program_shape(&prog);
             let (bytes, map) = prog.encode().expect("encode");
-            StreamCase { structural: map.structural_offsets(), headers: vec![], container: false, aux_after_codestream: false, brob_after_codestream: false, shape, source: "jxlgen".into(), bytes }
+            StreamCase { structural: map.structural_offsets(), headers: vec![], container: false, aux_after_codestream: false, brob_after_codestream: false, shape, source: "jxlgen".into(), program: serde_json::to_value(&prog).ok(), bytes }
         };
         if corrupt {
             let len = case.bytes.len();
